@@ -259,16 +259,13 @@ def r1(rr, repo):
             # d
             sent = [t for t in tr if t.startswith('send_exit_msg(')]
             inflight = kind if (kind is not None and base in ('setup', 'loop_once', 'shutdown') and not (base == 'loop_once' and not loop_yes and kind == 'Exception')) else None
-            is_exc = inflight in ('Exception', 'PropagateError')
+            is_exc = inflight in ('Exception', 'PropagateError', 'KeyboardInterrupt')      # whatever makes run() raise is an error end for the neighbours too (KeyboardInterrupt, a sys.exit() of user code): only Filter.Exit is a clean one
             bit = FL['error'] if is_exc else FL['clean']
             want = init_ok and bool(FL[prop] & bit) and not (base in ('send_exit_msg',) and False)
             if base == 'send_exit_msg' and kind is not None:
                 want = bool(FL[prop] & FL['clean'])   # the call is attempted (and is the one that faults)
-            if inflight == 'KeyboardInterrupt':
-                bit = FL['clean']
-                want = init_ok and bool(FL[prop] & bit)
             if init_ok and setup_ok or (init_ok and base == 'setup'):
-                rr.ob("an exit message is sent iff the propagate policy has the bit for the kind of exit in flight ('error' for an Exception, else 'clean')",
+                rr.ob("an exit message is sent iff the propagate policy has the bit for the kind of exit in flight ('error' for whatever run() is going to raise, else 'clean')",
                       (len(sent) == 1) == want and (not sent or sent[0] == f"send_exit_msg('{'error' if is_exc else 'clean'}')"), mod, run, witness=w,
                       key=f'exitmsg|inflight={inflight}|prop={prop}|sent={sent}')
             elif not init_ok:
@@ -321,6 +318,27 @@ def r1b(rr, repo):
                     rr.ob("fault in shutdown() of a run that is ending by a clean exit, prop_exit='clean': nothing is announced", not [t for t in tr if t.startswith('send_exit_msg(')], mod, run, witness=w,
                           key=f'shutdown-fault-after-exit-silent|{kind}')
     rr.floor('shutdown-fault-after-exit scenarios reached', k2, 4, mod, run)
+    # ... and the converse: exit() called from shutdown() (allowed, and a clean end of a clean run) while an ERROR is on its way out does not turn the run into a clean one - the Filter.Exit it
+    # raises would replace the exception in flight, run() would return normally and the neighbours would be told 'clean'
+    k3 = 0
+    for site, kind in (('loop_once', 'Exception'), ('loop_once#2', 'Exception'), ('loop_once', 'KeyboardInterrupt'), ('loop_once', 'PropagateError')):
+        for p in m.scenario(site, kind, 'all', True, second=('shutdown', 'Exit')):
+            if p.outcome is not None and p.outcome[0] == 'loopcut':
+                continue
+            if not any(e.kind == 'raise' and e.raw.startswith('<Exit raised by') for e in p.events):
+                continue
+            k3 += 1
+            tr = trace(p)
+            w = f'{kind}@{site} then exit() in shutdown(), prop_exit=all: ' + ' '.join(tr) + ' => ' + p.outcome_text()
+            if kind == 'PropagateError':      # an obeyed error exit: eaten by run() by design, but announced as an error
+                rr.ob("exit() in shutdown() of a run that is ending by an obeyed error exit: the neighbours are still told 'error'", "send_exit_msg('error')" in tr and "send_exit_msg('clean')" not in tr, mod, run, witness=w,
+                      key='exit-in-shutdown-after-error-msg|PropagateError')
+                continue
+            rr.ob('exit() in shutdown() of a run that is ending by an error: run() still raises', p.outcome is not None and p.outcome[0] == 'raise' and 'Exit' not in p.outcome_text(), mod, run, witness=w,
+                  key=f'exit-in-shutdown-after-error-raises|{kind}')
+            rr.ob("exit() in shutdown() of a run that is ending by an error: the exit message says 'error'", "send_exit_msg('error')" in tr and "send_exit_msg('clean')" not in tr, mod, run, witness=w,
+                  key=f'exit-in-shutdown-after-error-msg|{kind}')
+    rr.floor('exit-in-shutdown-after-error scenarios reached', k3, 3, mod, run)
     n = 0
     for site in ('setup', 'loop_once', 'loop_once#2', 'shutdown'):
         for kind in ('Exit', 'PropagateError'):
